@@ -397,7 +397,11 @@ def run_batch(ctx, scripts, par=8):
             rv["invariant"] = [v["invbad"][k]]
         for p in bad:
             ln = sorted(rv[p])[0]
-            ctx.violation("C02:batch:%s:%s" % (p, rv["fclass"]),
+            fclass = rv["fclass"]
+            if p == "lost" and fclass == "item-error:injected-store-read-fault" and set(rv["lost"]) - set(rv["lostdrop"]):
+                # more is missing than the operations whose add the harness made fail
+                fclass = "item-error:beyond-injected-faults"
+            ctx.violation("C02:batch:%s:%s" % (p, fclass),
                           "%s (batching=%s maxsize=%s maxq=%s, after %s; line %s)" % (
                               what[p], s["batching"], s["maxsize"], s["maxq"], rv["fclass"], json.dumps(lines[ln - 1])),
                           {"kind": "batch", "script": s, "lines": lines[rv["first"] - 1:rv["last"]]})
@@ -455,7 +459,7 @@ def run_net(ctx, scripts, par=8):
                               x["c"], json.dumps([[o["r"], o["pins"]] for o in lines[x["line"] - 1]["obs"]])), case)
         for x in rv["hook"]:
             bad = True
-            ctx.violation("C02:net:hook-missing:%s%s" % (x["shape"], sfx),
+            ctx.violation("C02:net:hook-missing:%s%s%s" % (x["shape"], ":stale-record-resurfaced" if x["stale"] else "", sfx),
                           "the pinset of %s changed for %s without the matching Track/Untrack hand-off (sync at line %d)" % (
                               x["rep"], x["c"], x["line"] - rv["first"] + 1), case)
         if not bad and not conform:
